@@ -92,6 +92,7 @@ __version__ = get_version("__init__.py", thispathname)  # aux function will retu
 
 def feature_scaling(x, xmin, xmax, a=0, b=1):
     '''Generalized feature scaling (useful for variable error correction rate calculation)'''
+    if xmax == xmin: return a # degenerate range (can only happen with a corrupted or mismatching filesize): avoid a division by zero
     return a + float(x - xmin) * (b - a) / (xmax - xmin)
 
 #--------------------------------
